@@ -63,16 +63,12 @@ Section History.
     fm (fitted (@update R Ctx tm w v)) (other w) = None -> snd (ll w v) = None.
   Proof. intros H. unfold loglike. cbn [snd update fitted other] in *. rewrite H. reflexivity. Qed.
 
-  (* (e') for a valid model with chi^2 <> 0 the value is the Gaussian formula at exactly the
-     prior-transformed parameters *)
+  (* (e') for a valid model the value is the Gaussian formula at exactly the prior-transformed parameters
+     (a perfect fit, chi^2 = 0, included) *)
   Theorem valid_model_value (w : wld) (v m : list R) :
-    fm (map2 (fun f x => f x) tm v) (other w) = Some m -> @chisq R RTNum data sig m <> 0 ->
+    fm (map2 (fun f x => f x) tm v) (other w) = Some m ->
     snd (ll w v) = Some (@gauss_loglike R RTNum data sig m).
-  Proof. intros H Hc. unfold loglike. cbn [snd update fitted other]. rewrite H.
-    match goal with |- context [if ?b then None else _] => assert (E : b = false) end.
-    { unfold neqb. rnum. destruct (Rleb _ 0) eqn:E1; [|reflexivity]. destruct (Rleb 0 _) eqn:E2; [|reflexivity].
-      apply Rleb_true in E1, E2. exfalso. apply Hc. lra. }
-    rewrite E. reflexivity. Qed.
+  Proof. intros H. unfold loglike. cbn [snd update fitted other]. rewrite H. reflexivity. Qed.
 
   (* (d) the three wrappers compute the same function of the first ndim cube entries *)
   Theorem wrappers_agree (w : wld) (ndim : nat) (cube : list R) :
